@@ -42,10 +42,70 @@ def specOcmp (a b : Value) : String :=
 def parseOpt (s : String) : Option (Option Nat) :=
   if s == "-" then some none else s.toNat?.map some
 
-def allPairs (l : List Nat) : List (Nat × Nat) :=
-  match l with
-  | [] => []
-  | x :: xs => xs.map (x, ·) ++ allPairs xs
+/-- the Spec's three-way comparison of two key values, `none` where the Spec has no opinion -/
+def specCmp (a b : Value) : Option Ordering :=
+  match specOcmp a b with
+  | "lt" => some .lt | "eq" => some .eq | "gt" => some .gt | _ => none
+
+/-- the Spec's composed comparison over the ORDER BY items (ASC/DESC), `none` if some needed pair is unordered -/
+def specKeyCmp : List (Value × Dir) → List (Value × Dir) → Option Ordering
+  | (va, da) :: as, (vb, _) :: bs =>
+    match specCmp va vb with
+    | none => none
+    | some .eq => specKeyCmp as bs
+    | some o => some (if da == .asc then o else o.swap)
+  | _, _ => some .eq
+
+def sortLine (E : Env) (dirs sk lm : String) (rowToks : List String) : String × String × String :=
+  let dl : List Dir := dirs.toList.map fun c => if c == 'a' then .asc else .desc
+  let rows? : Option (List (List Value)) := rowToks.mapM fun t => match parseValue t with
+    | some (.list ks) => if ks.length == dl.length then some ks else none
+    | _ => none
+  match parseOpt sk, parseOpt lm, rows? with
+  | some sk, some lm, some rows =>
+    let keyed : List (Keyed Nat) := (rows.zip (List.range rows.length)).map fun (ks, i) => (ks.zip dl, i)
+    let keyArr : Array (List (Value × Dir)) := (rows.map (·.zip dl)).toArray
+    let keyOf (i : Nat) : List (Value × Dir) := keyArr.getD i []
+    -- the comparator must be a total preorder on the (distinct) key vectors, else `sort_by` promises nothing
+    -- (comparisons are tabulated once per pair of distinct key vectors)
+    let classes : List (List Value × Nat) := ((rows.zip (List.range rows.length)).foldl
+      (fun (acc : List (List Value × Nat)) (r : List Value × Nat) =>
+        if acc.any (fun u => Value.sameList u.1 r.1) then acc else acc ++ [r]) [])
+    let uniq : Array Nat := (classes.map (·.2)).toArray
+    let u := uniq.size
+    let classOf : Array Nat := (rows.map fun r => (classes.findIdx? (fun cl => Value.sameList cl.1 r)).getD 0).toArray
+    let tab : Array Ordering := Array.ofFn (n := u * u) fun ij =>
+      keyCompare E (keyOf (uniq.getD (ij.val / u) 0)) (keyOf (uniq.getD (ij.val % u) 0))
+    let stab : Array (Option Ordering) := Array.ofFn (n := u * u) fun ij =>
+      specKeyCmp (keyOf (uniq.getD (ij.val / u) 0)) (keyOf (uniq.getD (ij.val % u) 0))
+    let c (i j : Nat) : Ordering := tab.getD (classOf.getD i 0 * u + classOf.getD j 0) .eq
+    let cu (i j : Nat) : Ordering := tab.getD (i * u + j) .eq
+    let ui := List.range u
+    let pre := ui.all fun i => ui.all fun j =>
+      cu i j == (cu j i).swap && ui.all fun k => !(cu i j != .gt && cu j k != .gt && cu i k == .gt)
+    let trig := triggers E (classes.map (·.1)).flatten
+    if !pre then ("nonpreorder", "1 1 1 * *", trig) else
+    let full := (orderBy E keyed).map (·.2)
+    let slice := (orderBySkipLimit E sk lm keyed).map (·.2)
+    let fa := full.toArray
+    let n := fa.size
+    let idx := List.range n
+    let sorted := idx.all fun p => idx.all fun q => !(p < q && c (fa.getD p 0) (fa.getD q 0) == .gt)
+    let stable := idx.all fun p => idx.all fun q =>
+      !(p < q && fa.getD p 0 > fa.getD q 0 && c (fa.getD p 0) (fa.getD q 0) == .eq)
+    let cut (l : List Nat) : List Nat := match lm with
+      | some k => (l.drop (sk.getD 0)).take k
+      | none => l.drop (sk.getD 0)
+    let m := s!"{b01 sorted} {b01 stable} {b01 (cut full == slice)} {idsStr full} {idsStr slice}"
+    -- the Spec: slice of THE stable sort of the full input, when the Spec orders every pair of keys
+    let specTotal := stab.all (·.isSome)
+    let spec := if specTotal then
+        let sc (i j : Nat) : Ordering := (stab.getD (classOf.getD i 0 * u + classOf.getD j 0) none).getD .eq
+        let sfull := isort sc (List.range rows.length)
+        s!"1 1 1 {idsStr sfull} {idsStr (cut sfull)}"
+      else "1 1 1 * *"
+    (m, spec, trig)
+  | _, _, _ => ("bad-op", "-", "")
 
 def step (_ : Unit) (ws : List String) : Unit × String × String × String :=
   match ws with
@@ -58,30 +118,8 @@ def step (_ : Unit) (ws : List String) : Unit × String × String × String :=
       | some a, some b => ((), ordStr (orderCompare E a b), specOcmp a b, triggers E [a, b])
       | _, _ => ((), "bad-op", "-", "")
     | "sort", dirs :: sk :: lm :: rowToks =>
-      let dl : List Dir := dirs.toList.map fun c => if c == 'a' then .asc else .desc
-      let rows? : Option (List (List Value)) := rowToks.mapM fun t => match parseValue t with
-        | some (.list ks) => if ks.length == dl.length then some ks else none
-        | _ => none
-      match parseOpt sk, parseOpt lm, rows? with
-      | some sk, some lm, some rows =>
-        let keyed : List (Keyed Nat) := (rows.zip (List.range rows.length)).map fun (ks, i) => (ks.zip dl, i)
-        let full := (orderBy E keyed).map (·.2)
-        let slice := (orderBySkipLimit E sk lm keyed).map (·.2)
-        let keyOf (i : Nat) : List (Value × Dir) := ((rows.getD i []).zip dl)
-        let ix := List.range rows.length
-        let c (i j : Nat) : Ordering := keyCompare E (keyOf i) (keyOf j)
-        let pre := ix.all fun i => ix.all fun j =>
-          c i j == (c j i).swap && ix.all fun k => !(c i j != .gt && c j k != .gt && c i k == .gt)
-        if !pre then ((), "nonpreorder", "1 1 1", triggers E rows.flatten) else
-        let prs := allPairs full
-        let sorted := prs.all fun (i, j) => keyCompare E (keyOf i) (keyOf j) != .gt
-        let stable := prs.all fun (i, j) => !(keyCompare E (keyOf i) (keyOf j) == .eq && i > j)
-        let want := match lm with
-          | some l => (full.drop (sk.getD 0)).take l
-          | none => full.drop (sk.getD 0)
-        let m := s!"{b01 sorted} {b01 stable} {b01 (want == slice)} | {idsStr full} {idsStr slice}"
-        ((), m, "1 1 1", triggers E rows.flatten)
-      | _, _, _ => ((), "bad-op", "-", "")
+      let (m, s, t) := sortLine E dirs sk lm rowToks
+      ((), m, s, t)
     | _, _ => ((), "bad-op", "-", "")
   | [] => ((), "bad-op", "-", "")
 
